@@ -124,6 +124,15 @@ CONFIG["C05"] = dict(
     trusted_base=["sort.Slice (stdlib) assumed to return a sorted permutation when the comparator is a strict weak order", "expected databases are computed by the generator from its semantic description"],
 )
 
+CONFIG["C09"] = dict(
+    level_text="The conversion is modelled over a software binary64 (Model/SoftFloat.lean: exact rational results rounded once to nearest-even; Model/Phys.lean: ToPhysical/FromPhysical as written), which is compared bit-for-bit with the hardware on every run (all pairs of special values, random operands, every operation and conversion used). Kernel-checked theorems (Props/C09.lean) prove, for every signal and every non-NaN input of the model, that the result of physical->raw lies between the raw bounds (saturation) and that clamping, saturation and the min/max steps are monotone; the five clauses (linear rule, encodable result, monotonicity in both factor signs, both round-trip bounds) are also evaluated as an oracle on the implementation's outputs for lengths 1..52, decimal and binary scales, negative factors, ranges present/absent/one-sided, boundary/random raws and physical values including +-Inf, subnormals and huge magnitudes.",
+    level_note="Partial proof: monotonicity of the full pipeline and the round-trip bounds are not proved over the rounding model (they need a rounding-error analysis; stated in DESIGN.md C09); they are decided per run by the oracle. Hardware float64 arithmetic is modelled, not verified (bit-exact comparison each run; no FMA fusion on amd64).",
+    level="proof",
+    trivial=r"^(nan|0{16}|0{16} enc=1)$",
+    rule="signals x raw/physical values from harness/internal/ops/phys.go; non-trivial = result is neither NaN nor +0",
+    trusted_base=["hardware binary64 arithmetic and conversions (amd64) modelled by Model/SoftFloat.lean, compared bit-exactly on every run"],
+)
+
 PRE_PROVE = {}
 def _unicode_tie(work, impl):
     """the committed unicode tables equal what the toolchain's unicode package says now"""
